@@ -20,8 +20,8 @@ func NewEnv() *Env {
 
 func (e *Env) Inherit(parent *Env) *Env {
 	util.Assert(e.parent == nil, "env.parent != nil")
-	e.parent = parent
-	return e
+	// 不修改调用方传入的 env (共享 ctx/fnTbl), 否则同一个 env 无法用于第二次调用
+	return &Env{parent, e.ctx, e.fnTbl, e.Dgb}
 }
 
 func (e *Env) Derive() *Env {
